@@ -204,6 +204,40 @@ def check_cache_class(ctx, cls, label, fetch_floor):
     return n_store, fx
 
 
+def sorted_by_number(ctx, rule, cls):
+    """get_all_trials of a cache class returns its trials sorted ascending by trial number (the cache is a dict filled in fetch order:
+    a trial of another client fetched late would otherwise come after newer ones) - shared by C08 R08.6 and C01 R01.19."""
+    f = cls.methods.get("get_all_trials")
+    ctx.require(f is not None, f"{rule}: {cls.name}.get_all_trials vanished")
+    # ordering
+    defs = {}
+    srt = [c for n in own_nodes(f.node) if isinstance(n, ast.Call) for c in [n] if dotted(c.func) == "sorted"]
+    ok = False
+    for c in srt:
+        k = kwarg(c, "key")
+        if isinstance(k, ast.Lambda) and isinstance(k.body, ast.Attribute) and k.body.attr == "number" \
+                and isinstance(k.body.value, ast.Name) and k.body.value.id == k.args.args[0].arg:
+            rv = kwarg(c, "reverse")
+            if rv is None or (isinstance(rv, ast.Constant) and rv.value is False):
+                ok = True
+    # every return value derives from the sorted list
+    rets = [n for n in own_nodes(f.node) if isinstance(n, ast.Return) and n.value is not None]
+    sorted_vars = set()
+    for n in own_nodes(f.node):
+        if isinstance(n, ast.Assign) and any(isinstance(x, ast.Call) and dotted(x.func) == "sorted" for x in ast.walk(n.value)):
+            sorted_vars |= {t.id for t in n.targets if isinstance(t, ast.Name)}
+    # names re-bound after the sort to something unsorted would break it
+    rebound_later = False
+    for r in rets:
+        names = {x.id for x in ast.walk(r.value) if isinstance(x, ast.Name)} - {"copy", "deepcopy"}
+        if not (names & sorted_vars) and not any(isinstance(x, ast.Call) and dotted(x.func) == "sorted" for x in ast.walk(r.value)):
+            rebound_later = True
+    ctx.check(ok and not rebound_later, rule, f.short, "sorted-by-number",
+              message=f"{cls.name}.get_all_trials does not return the trials sorted ascending by t.number",
+              how="return derives from sorted(.., key=lambda t: t.number)")
+
+
+
 def run(ctx):
     p: Program = ctx.program
     ctx.explanation = (
@@ -400,32 +434,7 @@ def run(ctx):
                 if self_attr(c.func) == "_read_trials_from_remote_storage":
                     ctx.check(bool(c.args) and norm(c.args[0]) == "study_id", "R08.4", f.short, "sync-same-study",
                               message="sync is issued for a different study than the one served", how="argument is study_id")
-        # ordering
-        defs = {}
-        srt = [c for n in own_nodes(f.node) if isinstance(n, ast.Call) for c in [n] if dotted(c.func) == "sorted"]
-        ok = False
-        for c in srt:
-            k = kwarg(c, "key")
-            if isinstance(k, ast.Lambda) and isinstance(k.body, ast.Attribute) and k.body.attr == "number" \
-                    and isinstance(k.body.value, ast.Name) and k.body.value.id == k.args.args[0].arg:
-                rv = kwarg(c, "reverse")
-                if rv is None or (isinstance(rv, ast.Constant) and rv.value is False):
-                    ok = True
-        # every return value derives from the sorted list
-        rets = [n for n in own_nodes(f.node) if isinstance(n, ast.Return) and n.value is not None]
-        sorted_vars = set()
-        for n in own_nodes(f.node):
-            if isinstance(n, ast.Assign) and any(isinstance(x, ast.Call) and dotted(x.func) == "sorted" for x in ast.walk(n.value)):
-                sorted_vars |= {t.id for t in n.targets if isinstance(t, ast.Name)}
-        # names re-bound after the sort to something unsorted would break it
-        rebound_later = False
-        for r in rets:
-            names = {x.id for x in ast.walk(r.value) if isinstance(x, ast.Name)} - {"copy", "deepcopy"}
-            if not (names & sorted_vars) and not any(isinstance(x, ast.Call) and dotted(x.func) == "sorted" for x in ast.walk(r.value)):
-                rebound_later = True
-        ctx.check(ok and not rebound_later, "R08.6", f.short, "sorted-by-number",
-                  message=f"{cls.name}.get_all_trials does not return the trials sorted ascending by t.number",
-                  how="return derives from sorted(.., key=lambda t: t.number)")
+        sorted_by_number(ctx, "R08.6", cls)
 
     # ------------------------------------------------------------ R08.5 sibling fetch predicates
     ctx.rule("R08.5", "the three incremental-filter implementations use only the accepted comparison "
@@ -523,6 +532,40 @@ def run(ctx):
     for fld in ("_studies", "_trial_id_to_study_id_and_number", "_study_id_and_number_to_trial_id"):
         ctx.check(fld in removed, "R08.7", f.short, f"invalidate:{fld}",
                   message=f"_CachedStorage.delete_study does not remove entries of {fld}", how="del / pop on the map")
+    # ... on every path: once the study is known to be cached, no way to the end of the method avoids dropping its entry (a removal that
+    # sits inside the per-trial loop is skipped for a study without cached trials: name and directions survive the delete)
+    gd = CFG(f.node, name=f.qualname)
+    ddefs = single_defs(f.node)
+
+    def _cached_atom(e):
+        a = cmp_atom(e)
+        if a is None:
+            return None
+        if a[0] == "study_id" and a[2] == "self._studies" and a[1] in (ast.In, ast.NotIn):
+            return a[1] is ast.In
+        if a[2] == "None" and a[1] in (ast.Is, ast.IsNot) and norm(resolve(ast.parse(a[0], mode="eval").body, ddefs)).startswith("self._studies.get(study_id"):
+            return a[1] is ast.IsNot
+        return None
+    cached_edges = [(t, k, m) for t in gd.stmt_nodes() if t.kind == "test" for k, m in t.succ if edges_where(t.expr, _cached_atom).get(k) is True]
+    rem = []
+    for n in gd.stmt_nodes():
+        if n.kind == "stmt" and isinstance(n.ast, ast.Delete) and any(norm(t) == "self._studies[study_id]" for t in n.ast.targets):
+            rem.append(n)
+        if any(isinstance(c.func, ast.Attribute) and c.func.attr == "pop" and norm(c.func.value) == "self._studies" and c.args and norm(c.args[0]) == "study_id" for c in n.calls()):
+            rem.append(n)
+    starts = [m for _t, _k, m in cached_edges]
+    ok = bool(cached_edges) and bool(rem) and gd.exit not in gd.reachable(starts, avoid_nodes=rem, edge_ok=NORMAL)
+    if not cached_edges and rem:
+        # unconditional removal: must be on every path from the entry
+        ok = gd.exit not in gd.reachable([gd.entry], avoid_nodes=rem, edge_ok=NORMAL)
+    ctx.check(ok, "R08.7", f.short, "study-entry-dropped-on-every-path",
+              message="_CachedStorage.delete_study can finish with the study still in self._studies although it was cached (e.g. the removal sits inside the loop over the "
+                      "study's cached trials and is skipped for a study without any): get_study_name_from_id / get_study_directions keep answering for the deleted "
+                      "study, and for the next study that re-uses the id", how="from the `study is cached` edge every path to the exit passes del/pop of self._studies[study_id]",
+              witness=gd.witness([gd.exit], guards=rem, src=starts[0], edge_ok=NORMAL) if (starts and not ok) else None)
+    from rules.c03 import mirrored_write_in_one_section
+    from sa.locks import ClassLockInfo as _CLI
+    mirrored_write_in_one_section(ctx, "R08.7", _CLI(p, cached, "_lock"))
     f = p.cls(GPROXY).methods.get("delete_study")
     ctx.require(f is not None, "R08.7: GrpcStorageProxy.delete_study vanished")
     g = CFG(f.node, name=f.qualname)
